@@ -126,9 +126,24 @@ func (x *XmlNode) ContentTrim() string {
 	return strings.TrimSpace(string(x.Content))
 }
 
+// leafText is the text of a leaf element as its type reads it: the value of a
+// string is the character data as written (white space is part of the value),
+// every other type ignores white space around its lexical form.
+func (x *XmlNode) leafText(t *meta.Type) string {
+	f := t.Format()
+	for (f == val.FmtLeafRef || f == val.FmtLeafRefList) && t != t.Resolve() {
+		t = t.Resolve()
+		f = t.Format()
+	}
+	if f == val.FmtString || f == val.FmtStringList {
+		return string(x.Content)
+	}
+	return x.ContentTrim()
+}
+
 func (x *XmlNode) field(m meta.Leafable) (string, bool) {
 	if ndx := x.Find(0, m); ndx >= 0 {
-		return x.Nodes[ndx].ContentTrim(), true
+		return x.Nodes[ndx].leafText(m.Type()), true
 	}
 	return "", false
 }
@@ -145,12 +160,12 @@ func (x *XmlNode) Field(r node.FieldRequest, hnd *node.ValueHandle) error {
 		// The XML elements representing list entries MAY be interleaved with elements
 		// for siblings of the list
 		for ndx >= 0 {
-			found = append(found, x.Nodes[ndx].ContentTrim())
+			found = append(found, x.Nodes[ndx].leafText(r.Meta.Type()))
 			ndx = x.Find(ndx+1, r.Meta)
 		}
 		hnd.Val, err = node.NewValue(r.Meta.Type(), found)
 	} else {
-		hnd.Val, err = node.NewValue(r.Meta.Type(), x.Nodes[ndx].ContentTrim())
+		hnd.Val, err = node.NewValue(r.Meta.Type(), x.Nodes[ndx].leafText(r.Meta.Type()))
 	}
 	return err
 }
